@@ -332,7 +332,23 @@ int main(int argc, char** argv)
   auto rec = std::static_pointer_cast<RecSink>(quill::Frontend::create_or_get_sink<RecSink>("rec", 1u));
   quill::FileSinkConfig fc;
   fc.set_open_mode('w');
-  auto js = quill::Frontend::create_or_get_sink<quill::JsonFileSink>(dir + "/out.json", fc, quill::FileEventNotifier{});
+  // every other process: the JSON sink's write fails now and then (its before_write callback throws). The failed
+  // statement has no line; every line after it is still exactly one complete object of its own statement
+  static bool json_threw = false;
+  static uint64_t json_calls = 0, json_throw_mod = 0;
+  json_throw_mod = (seed % 2) ? 37 : 0;
+  quill::FileEventNotifier fen;
+  if (json_throw_mod)
+    fen.before_write = [](std::string_view m)
+    {
+      if ((++json_calls % json_throw_mod) == 0)
+      {
+        json_threw = true;
+        throw std::runtime_error{"scripted json write failure"};
+      }
+      return std::string{m};
+    };
+  auto js = quill::Frontend::create_or_get_sink<quill::JsonFileSink>(dir + "/out.json", fc, fen);
   g_lg = quill::Frontend::create_or_get_logger("jl", {rec, js}, quill::PatternFormatterOptions{"%(message)"}, quill::ClockSourceType::System);
   g_manual = quill::Backend::acquire_manual_backend_worker();
   g_manual->init(bo);
@@ -354,6 +370,7 @@ int main(int argc, char** argv)
       recorder().clear();
       g_sep_in_value = false;
       g_expect_error = false;
+      json_threw = false;
       t.log(r, text, vals);
       // the backend hands the message to the sinks without ONE trailing newline (the documented single-statement rule)
       if (!text.empty() && text.back() == '\n') text.pop_back();
@@ -397,6 +414,7 @@ int main(int argc, char** argv)
       if (g_sep_in_value) g_stats.add("statements_with_reserved_separator_in_a_value");
       // sidecar for the JSON judgement (done by the driver with Python's json module)
       if (g_expect_error && writes == 0) { g_stats.sig("templates", t.fmt); continue; } // skipped entirely: no JSON line either
+      if (json_threw) { g_stats.add("json_sink_writes_that_failed"); g_stats.sig("templates", t.fmt); continue; } // no line for this one
       std::string tmpl = t.fmt;
       for (auto& c : tmpl) if (c == '\n') c = ' ';
       std::string line = "{\"message\":" + json_str(tmpl) + ",\"defect_class\":" + (t.defect_class ? "true" : "false") + ",\"needs_escaping\":" + ((needs_escaping || g_expect_error) ? "true" : "false") + ",\"pairs\":[";
